@@ -2471,8 +2471,10 @@ class ColFn(ColExpr):
                 source=self._fn_id,
             )
 
-        if self.op.ftype == Ftype.ELEMENT_WISE and all(
-            types.is_const(argt) for argt in itertools.chain(arg_dtypes, context_kwarg_dtypes)
+        if (
+            self.op.ftype == Ftype.ELEMENT_WISE
+            and len(arg_dtypes) > 0  # a function without arguments (`rand`) is not a constant
+            and all(types.is_const(argt) for argt in itertools.chain(arg_dtypes, context_kwarg_dtypes))
         ):
             self._dtype = Const(self._dtype)
 
